@@ -348,13 +348,67 @@ def textable(v):
   return not isinstance(v, dict)
 
 
-def build(cls, kw, qn_update=False):
-  """Constructs the quantizer.  With qn_update the qnoise_factor of kw is not
-  passed to the constructor but set afterwards through the documented
-  update_qnoise_factor() (after a first call when use_variables made it a
-  tf.Variable; qn_update="var" passes a tf.Variable as QNoiseScheduler
-  does) - the resulting quantizer must be the same function."""
+# post-construction mutations (a quantizer handed to a layer, or whose
+# documented modifiable attributes are assigned, must still round-trip: the
+# rebuilt object has to behave like the LIVE one)
+#   {"kind": "trainable"}            q._set_trainable_parameter(), what every
+#                                    layer constructor does to its kernel
+#                                    quantizer (alpha None -> 'auto_po2', ...)
+#   {"kind": "qdense"}               QDense(4, kernel_quantizer=q); the live
+#                                    object is layer.kernel_quantizer_internal
+#   {"kind": "assign", "attr", "value"}   q.attr = value for the attributes
+#                                    quantized_linear documents as modifiable
+#   "after_call": True               mutate after the first call of q
+ASSIGNABLE = {
+    "quantized_linear": [("symmetric", 0), ("symmetric", 1),
+                         ("alpha", "auto"), ("alpha", "auto_po2")],
+}
+
+
+def mutations(cls):
+  out = [{"kind": "trainable"}, {"kind": "qdense"}]
+  out += [{"kind": "assign", "attr": a, "value": v}
+          for a, v in ASSIGNABLE.get(cls, [])]
+  return out
+
+
+def mutation_name(m):
+  if not m:
+    return None
+  n = m["kind"] if m["kind"] != "assign" else "assign_" + m["attr"]
+  return n
+
+
+def apply_mutation(q, m):
+  import tensorflow as tf  # pylint: disable=g-import-not-at-top
+  if m.get("after_call"):
+    try:
+      q(tf.constant(probe("r2")))
+    except Exception:  # pylint: disable=broad-except
+      pass
+  if m["kind"] == "trainable":
+    q._set_trainable_parameter()  # pylint: disable=protected-access
+  elif m["kind"] == "qdense":
+    from qkeras import QDense  # pylint: disable=g-import-not-at-top
+    layer = QDense(4, kernel_quantizer=q)
+    q = layer.kernel_quantizer_internal
+  elif m["kind"] == "assign":
+    setattr(q, m["attr"], decode(m["value"]))
+  else:
+    raise ValueError(m)
+  return q
+
+
+def build(cls, kw, post=None):
+  """Constructs the quantizer; `post` = {"qn_update": True|"var",
+  "mutate": {...}} describes what happens to it after construction.
+  With qn_update the qnoise_factor of kw is not passed to the constructor but
+  set afterwards through the documented update_qnoise_factor() (after a first
+  call when use_variables made it a tf.Variable; "var" passes a tf.Variable as
+  QNoiseScheduler does).  `mutate` see above."""
   from qkeras import quantizers as Q  # pylint: disable=g-import-not-at-top
+  post = post or {}
+  qn_update = post.get("qn_update")
   if qn_update:
     import tensorflow as tf  # pylint: disable=g-import-not-at-top
     q = getattr(Q, cls)(**{k: decode(v) for k, v in kw.items()
@@ -366,8 +420,17 @@ def build(cls, kw, qn_update=False):
       if qn_update == "var":      # the scheduler hands over a tf.Variable
         v = tf.Variable(v, dtype=tf.float32, trainable=False)
       q.update_qnoise_factor(v)
-    return q
-  return getattr(Q, cls)(**{k: decode(v) for k, v in kw.items()})
+  else:
+    q = getattr(Q, cls)(**{k: decode(v) for k, v in kw.items()})
+  if post.get("mutate"):
+    q = apply_mutation(q, post["mutate"])
+  return q
+
+
+def post_of(case):
+  """The post-construction part of a case, or None."""
+  p = {k: case[k] for k in ("qn_update", "mutate") if case.get(k)}
+  return p or None
 
 
 # ---------------------------------------------------------------------------
